@@ -84,7 +84,7 @@ fn merge_sst(case: u64, rng: &mut Rng, rep: &mut Report) {
         match r {
             Ok(b) => inputs.push(OwnedBytes::new(b)),
             Err(e) => {
-                rep.violation("sst:api-error:build", json!({"where": "merge input", "error": e}));
+                viol(rep, "sst:api-error:build", json!({"where": "merge input", "error": e}));
                 return;
             }
         }
@@ -102,7 +102,7 @@ fn merge_sst(case: u64, rng: &mut Rng, rep: &mut Report) {
     };
     let info = json!({"target": "SSTable::merge", "flavour": fl_name, "inputs": in_lens, "universe": un, "key_class": class});
     if let Err(e) = r {
-        rep.violation("sst-merge:api-error:merge", json!({"error": e.to_string(), "dict": info}));
+        viol(rep, "sst-merge:api-error:merge", json!({"error": e.to_string(), "dict": info}));
         return;
     }
     let exp_keys: Vec<Vec<u8>> = merged_expect.keys().cloned().collect();
@@ -169,7 +169,7 @@ fn merge_sst(case: u64, rng: &mut Rng, rep: &mut Report) {
         rep.sample(json!({"stream": "merge", "dict": info, "merged_terms": exp_keys.len(), "output_blocks": nblocks}));
     }
     for (sig, d) in fails.v {
-        rep.violation(sig, json!({"detail": d, "witness": dict_witness(&exp_keys, &info)}));
+        viol(rep, sig, json!({"detail": d, "witness": dict_witness(&exp_keys, &info)}));
     }
 }
 
@@ -189,7 +189,7 @@ fn merge_termmerger(rng: &mut Rng, rep: &mut Report) {
         match d {
             Ok(d) => dicts.push(d),
             Err(e) => {
-                rep.violation("fst:api-error:build", json!({"where": "TermMerger input", "error": e}));
+                viol(rep, "fst:api-error:build", json!({"where": "TermMerger input", "error": e}));
                 return;
             }
         }
@@ -212,7 +212,7 @@ fn merge_termmerger(rng: &mut Rng, rep: &mut Report) {
         match d.stream() {
             Ok(s) => streams.push(s),
             Err(e) => {
-                rep.violation("fst:api-error:stream", json!(e.to_string()));
+                viol(rep, "fst:api-error:stream", json!(e.to_string()));
                 return;
             }
         }
@@ -251,7 +251,7 @@ fn merge_termmerger(rng: &mut Rng, rep: &mut Report) {
     }
     let exp_keys: Vec<Vec<u8>> = expect.keys().cloned().collect();
     for (sig, d) in fails.v {
-        rep.violation(sig, json!({"detail": d, "witness": dict_witness(&exp_keys, &info)}));
+        viol(rep, sig, json!({"detail": d, "witness": dict_witness(&exp_keys, &info)}));
     }
 }
 
@@ -314,13 +314,13 @@ fn merge_columnar_case(rng: &mut Rng, rep: &mut Report) {
         }
         let mut buf = Vec::new();
         if let Err(e) = w.serialize(seg_rows.len() as u32, None, &mut buf) {
-            rep.violation("columnar:api-error:serialize", json!(e.to_string()));
+            viol(rep, "columnar:api-error:serialize", json!(e.to_string()));
             return;
         }
         match ColumnarReader::open(buf) {
             Ok(r) => readers.push(r),
             Err(e) => {
-                rep.violation("columnar:api-error:open", json!(e.to_string()));
+                viol(rep, "columnar:api-error:open", json!(e.to_string()));
                 return;
             }
         }
@@ -367,7 +367,7 @@ fn merge_columnar_case(rng: &mut Rng, rep: &mut Report) {
                 }
             }
             Err(e) => {
-                rep.violation("columnar:api-error:open-column", json!(e));
+                viol(rep, "columnar:api-error:open-column", json!(e));
                 return;
             }
         }
@@ -454,7 +454,7 @@ fn merge_columnar_case(rng: &mut Rng, rep: &mut Report) {
     }
     let exp_keys: Vec<Vec<u8>> = union.iter().map(|&u| ukeys[u].clone()).collect();
     for (sig, d) in fails.v {
-        rep.violation(sig, json!({"detail": d, "witness": dict_witness(&exp_keys, &info)}));
+        viol(rep, sig, json!({"detail": d, "witness": dict_witness(&exp_keys, &info)}));
     }
 }
 
